@@ -339,3 +339,95 @@ pub proof fn lemma_f1_short(x: u32, start: u32, end: u32)
     }
 }
 
+
+pub proof fn lemma_pow256_mono(a: nat, b: nat)
+    requires
+        a <= b,
+    ensures
+        pow256(a) <= pow256(b),
+    decreases b - a,
+{
+    if a < b {
+        lemma_pow256_mono(a, (b - 1) as nat);
+        lemma_pow256_step((b - 1) as nat);
+    }
+}
+
+/// big-endian value is injective on byte strings of equal length
+pub proof fn lemma_be_val_inj(s: Seq<u8>, t: Seq<u8>)
+    requires
+        s.len() == t.len(),
+        be_val(s) == be_val(t),
+    ensures
+        s =~= t,
+    decreases s.len(),
+{
+    if s.len() > 0 {
+        let a = be_val(s.drop_last());
+        let b = be_val(t.drop_last());
+        assert(a * 256 + s.last() as nat == b * 256 + t.last() as nat);
+        assert(a == b && s.last() == t.last()) by (nonlinear_arith)
+            requires
+                a * 256 + s.last() as nat == b * 256 + t.last() as nat,
+                s.last() < 256,
+                t.last() < 256,
+        ;
+        lemma_be_val_inj(s.drop_last(), t.drop_last());
+        assert(s =~= s.drop_last().push(s.last()));
+        assert(t =~= t.drop_last().push(t.last()));
+    }
+}
+
+/// a node that predates checkpoint cp keeps its tree in any allocator that agrees with `o` on the
+/// prefix cut at cp (whatever was re-grown after the cut)
+pub proof fn lemma_tree_after_cut_grow(a: &Allocator, o: &Allocator, cp: &TransparentCheckpoint, n: NodePtr)
+    requires
+        o.inv(),
+        o.consistent(cp),
+        o.valid_at(cp, n),
+        a.pair_vec@.len() >= cp.pairs,
+        a.atom_vec@.len() >= cp.atoms,
+        a.u8_vec@.len() >= cp.u8s,
+        forall|i: int| 0 <= i < cp.pairs ==> #[trigger] a.pair_vec@[i] == o.pair_vec@[i],
+        forall|i: int| 0 <= i < cp.atoms ==> #[trigger] a.atom_vec@[i] == o.atom_vec@[i],
+        forall|i: int| 0 <= i < cp.u8s ==> #[trigger] a.u8_vec@[i] == o.u8_vec@[i],
+    ensures
+        a.valid(n),
+        a.tree(n) == o.tree(n),
+    decreases n.rank(),
+{
+    if n.tag() == 0 {
+        let i = n.idx() as int;
+        assert(o.pair_ok(i));
+        let p = o.pair_vec@[i];
+        assert(a.pair_vec@[i] == p);
+        lemma_idx_bound(p.first);
+        lemma_idx_bound(p.rest);
+        lemma_tree_after_cut_grow(a, o, cp, p.first);
+        lemma_tree_after_cut_grow(a, o, cp, p.rest);
+    } else if n.tag() == 1 {
+        let ab = o.atom_vec@[n.idx() as int];
+        assert(ab.ok(o.u8_vec@.len()));
+        assert(ab.end <= cp.u8s);
+        assert(a.atom_vec@[n.idx() as int] == ab);
+        assert(a.u8_vec@.subrange(ab.start as int, ab.end as int) =~= o.u8_vec@.subrange(ab.start as int, ab.end as int));
+    }
+}
+
+pub proof fn lemma_be_val_small_pos(s: Seq<u8>)
+    requires
+        1 <= s.len() <= 4,
+        s[0] < 0x80,
+    ensures
+        be_val(s) < 0x8000_0000,
+{
+    if s.len() == 1 {
+        lemma_be_val_1(s);
+    } else if s.len() == 2 {
+        lemma_be_val_2(s);
+    } else if s.len() == 3 {
+        lemma_be_val_3(s);
+    } else {
+        lemma_be_val_4(s);
+    }
+}
